@@ -229,6 +229,21 @@ func c12Run(w *core.W) {
 			return
 		}
 	}
+	w.Family("composed-expression-contexts")
+	{
+		inner := []T{I(1), Bin("+", I(1), I(0)), Bin("-", Bin("*", I(1), N("gi")), I(1)), Bin("-", I(3), Bin("*", I(1), N("gi"))), Call("ar", I(1)), Bin("+", L(I(1)), L(I(2)))} // ints are 1: a valid index and slice bound everywhere
+		ecs := exprContexts()
+		for _, outer := range ecs {
+			for _, in := range ecs {
+				for _, op := range inner {
+					if !emit("outer(inner(e))/t=inner(e);outer(t)", "full-unless-nil", []T{outer.F(in.F(op))}, []T{Blk(Asg("t", in.F(op)), outer.F(N("t")))}) ||
+						!emit("outer(inner(e))/t=e;outer(inner(t))", "full-unless-nil", []T{outer.F(in.F(op))}, []T{Blk(Asg("t", op), outer.F(in.F(N("t"))))}) {
+						return
+					}
+				}
+			}
+		}
+	}
 	w.Family("increment-forms")
 	for _, v := range c05Values() {
 		top := func(s ...T) []T { return append([]T{Asg("x", v)}, s...) }
